@@ -896,3 +896,16 @@ m('c17-zero-padded-again', ['C17'], 'format_full_scale:zero-is-not-padded', [
         }
 """, "        exp = (this.scale as i128).neg();\n")],
   'the repaired defect re-introduced: 0e1 prints as "00"')
+# ---- C16 positions of the ASCII rounding routine
+m('c16-round-ascii-wrong-sig-digit', ['C16'], 'round_ascii_digits:positions[rounded-digit]', [
+  ('src/impl_fmt.rs', "    let rounding_digit_pos = significant_digit_count.get() - 1;\n    let sig_digit = sig_digits[rounding_digit_pos] - b'0';", "    let rounding_digit_pos = significant_digit_count.get() - 1;\n    let sig_digit = sig_digits[0] - b'0';")],
+  'rounding decision taken on the first digit instead of the last kept digit (matters for HalfEven)')
+m('c16-round-ascii-tail-includes-insig', ['C16'], 'round_ascii_digits:positions[tail-flag]', [
+  ('src/impl_fmt.rs', "        rounder, insig_digit - b'0', || trailing_digits.iter().all(|&d| d == b'0')", "        rounder, insig_digit - b'0', || insig_digits.iter().all(|&d| d == b'0')")],
+  'the tail flag also covers the insignificant digit: exact ties are no longer recognised')
+m('c16-round-ascii-removed-count', ['C16'], 'round_ascii_digits:positions[removed-count]', [
+  ('src/impl_fmt.rs', "    let mut removed_digit_count = insig_digits.len();", "    let mut removed_digit_count = insig_digits.len() + 1;")],
+  'one digit too many reported as removed: exponent/scale off by one after rounding')
+m('c16-round-ascii-digit-as-ascii', ['C16'], 'round_ascii_digits:positions[insignificant-digit]', [
+  ('src/impl_fmt.rs', "        rounder, insig_digit - b'0', || trailing_digits.iter().all(|&d| d == b'0')", "        rounder, insig_digit, || trailing_digits.iter().all(|&d| d == b'0')")],
+  'ASCII code handed to the rounding rule instead of the digit value')
